@@ -584,6 +584,20 @@ func ucisched(args []string) {
 			steps := realScript(r)
 			run(fmt.Sprintf("real-%v-%d-%d", spec.Name, *seed, i), steps, nil, false, spec, *delay)
 		}
+		// roots in which a draw can be claimed (hundred half-moves) and the side to move is in check with an
+		// illegal capture at hand: every engine must still answer with a legal move
+		for i := 0; i < *n*3; i++ {
+			g, ok := drawnRoot(r, lightCorpus()[r.Intn(len(lightCorpus()))].Fen)
+			if !ok {
+				continue
+			}
+			spec := ucih.EngineSpec{Name: names[i%4], Hash: uint(r.Intn(2)), Depth: uint(1 + r.Intn(2)), Seed: r.Int63()}
+			if spec.Name == "morlock" {
+				spec.Depth = 0
+			}
+			steps := []stepT{{Kind: "cmd", Arg: g.line()}, {Kind: "cmd", Arg: "go depth 1"}, {Kind: "pause", D: 30}, {Kind: "cmd", Arg: "isready"}, {Kind: "pause", D: 10}}
+			run(fmt.Sprintf("real-drawnroot-%v-%d-%d", spec.Name, *seed, i), steps, nil, false, spec, *delay)
+		}
 		// the generic engine with a book built from lines: asked at book positions and at positions that
 		// differ from a book position only in the en passant right (a reordered prefix)
 		lines := ucih.EpLines()
@@ -649,6 +663,53 @@ func lightCorpus() []corpus.Entry {
 	return ret
 }
 
+// drawnRoot: a game whose last move completes the hundredth half-move without progress, so that a draw
+// can be claimed in the position to be searched; moves that give check are preferred (the side to move
+// then has few legal moves among many pseudo-legal ones). ok = false if the position offers no such move.
+func drawnRoot(r *rand.Rand, f string) (gameT, bool) {
+	parts := strings.Split(f, " ")
+	if len(parts) != 6 {
+		return gameT{}, false
+	}
+	parts[3], parts[4], parts[5] = "-", "99", "80"
+	g := gameT{start: "fen " + strings.Join(parts, " ")}
+	b := shadow(g)
+	var quiet, checks []board.Move
+	for _, m := range b.Position().PseudoLegalMoves(b.Turn()) {
+		if m.Type != board.Normal {
+			continue // pawn moves, captures, castling: not this one
+		}
+		next, ok := b.Position().Move(m)
+		if !ok {
+			continue
+		}
+		if len(next.LegalMoves(b.Turn().Opponent())) == 0 {
+			continue // mate or stalemate: nothing to search
+		}
+		quiet = append(quiet, m)
+		// ... and among those, positions in which some capture is pseudo-legal but not legal
+		opp := b.Turn().Opponent()
+		trap := false
+		for _, x := range next.PseudoLegalMoves(opp) {
+			if _, legal := next.Move(x); !legal && x.IsCapture() {
+				trap = true
+			}
+		}
+		if next.IsChecked(opp) && trap {
+			checks = append(checks, m)
+		}
+	}
+	pick := quiet
+	if len(checks) > 0 && r.Intn(4) != 0 {
+		pick = checks
+	}
+	if len(pick) == 0 {
+		return gameT{}, false
+	}
+	g.moves = []string{moveText(pick[r.Intn(len(pick))])}
+	return g, true
+}
+
 func realScript(r *rand.Rand) []stepT {
 	var steps []stepT
 	all := lightCorpus()
@@ -657,6 +718,11 @@ func realScript(r *rand.Rand) []stepT {
 		g = gameT{start: "fen " + all[r.Intn(len(all))].Fen}
 	}
 	g = extend(r, g, r.Intn(6))
+	if r.Intn(4) == 0 {
+		if dg, ok := drawnRoot(r, all[r.Intn(len(all))].Fen); ok {
+			g = dg
+		}
+	}
 	steps = append(steps, stepT{Kind: "cmd", Arg: g.line()})
 	for i := 0; i < 1+r.Intn(3); i++ {
 		switch r.Intn(6) {
